@@ -6,7 +6,7 @@ EXPLANATION = ("(1) gix_index::decode: Entry values are constructed only in entr
                "every decoding path (single-threaded and offset-table/threaded) reaches entries through entries::chunk; worker results are joined "
                "through InOrderIter; (2) for every function that decodes git's stat_data (load_one for entries, decode::stat for the untracked-cache "
                "extension) the map `k-th read_u32 -> Stat field` is extracted from MIR and must be git's order ctime.secs, ctime.nsecs, mtime.secs, "
-               "mtime.nsecs, dev, ino, [mode], uid, gid, size. (3) no remainder-dropping or filtering adaptor "
+               "mtime.nsecs, dev, ino, [mode], uid, gid, size. (3) every non-V4 path through load_one passes skip_padding before the Entry is built (writer/reader pairing of the 8-byte entry padding); (4) no remainder-dropping or filtering adaptor "
                "(chunks_exact, windows, take, skip, step_by, filter, truncate, ...) is applied to the IEOT offset list, because the threaded path never re-counts "
                "decoded entries. Equality of all decoded content with what git stored is not decided.")
 
@@ -46,6 +46,21 @@ def run(db, chk):
     chk.floor("calls on the IEOT offset list in the decoder (partition + iteration)", n_part, 3)
     if not any(o["rule"] == "offset-table-partition-total" for o in chk.obligations):
         chk.ob("offset-table-partition-total", "%d calls on the offset list" % n_part, True)
+    # (1c) writer/reader pairing of the entry padding: git (and gix_index::write) pad every V2/V3 entry to a multiple of 8, so on every path through
+    # load_one that does not take the V4 prefix-compression branch (var_int), the decoder must pass through skip_padding before it builds the Entry -
+    # including the branch for names of 0xfff bytes or more, which are NUL-terminated *and* padded
+    lo = db.one(r"^gix_index::decode::entries::load_one$")
+    builds = [bi for bi, si, pl, rv, ln, mc in lo.assigns() if rv[0] == "agg" and rv[1] == "adt" and rv[2] == "gix_index::Entry"]
+    pads = lo.calls_to(r"entries::skip_padding$")
+    v4 = lo.calls_to(r"::var_int$")
+    chk.floor("load_one: Entry construction / skip_padding / var_int sites", min(len(builds), len(pads), len(v4)), 1)
+    if builds and pads and v4:
+        r_ = lo.reach_from(0, avoid=[c.block for c in pads] + [c.block for c in v4])
+        # the call blocks themselves are avoided; their successors are reachable only through them
+        leak = [b for b in builds if b in r_]
+        chk.ob("v2-entry-padding-skipped", "load_one: every non-V4 path passes skip_padding", not leak,
+               "an Entry can be built on a V2/V3 path that never skips the entry padding (names >= 0xfff bytes): the next entry is then parsed from the padding bytes",
+               "%s:%d" % (lo.file, lo.line), key="v2-padding|load_one")
     # field sequences
     n = 0
     for f in dec:
